@@ -9,6 +9,7 @@ From AV Require Import Model.D13.
 From AV Require Import Model.D20.
 From AV Require Import Model.D05.
 From AV Require Import Model.D17.
+From AV Require Import Base.ITree Model.D00 Model.D01 Model.D04 Model.D06 Model.D07 Model.D12.
 Import ListNotations.
 
 Definition dispatch (prop op : nat) (t : itree) : itree :=
@@ -25,5 +26,6 @@ Definition dispatch (prop op : nat) (t : itree) : itree :=
   | 20 => d20 op t
   | 5 => d05 op t
   | 17 => d17 op t
+  | 12 => d12 op t
   | _ => bad_input
   end.
